@@ -1,8 +1,9 @@
 /-
 Helper lemmas for C10: one invariant `Inv` of the asynchronous-reference model, preserved by every
 event of a schedule and by every step of the ready queue as long as no *hazard* (Async/Spec.lean)
-is met.  The hazards are vacuous for the patched variant (`Cfg.fixed`), so the same induction
-gives the unconditional theorems for the patch and the `_partial` theorems for the code as it is.
+is met.  The hazards are vacuous for the code in /repo (`Cfg.repo`), so the same induction
+gives the unconditional theorems for the code in /repo and the conditional regression theorems for
+the pre-fix configuration.
 The property theorems are in Props/C10.lean.
 -/
 import ParamVerif.Async.Spec
@@ -17,7 +18,7 @@ def waitsCancelled (s : St) (t : Nat) (pc : Pc) : Prop :=
   | some f => s.futs f = .cancelled
   | none => False
 
-/-- the task can no longer write: a cancellation is on its way, or (patch) it will find its
+/-- the task can no longer write: a cancellation is on its way, or (since 0c5ea5c) it will find its
 reference replaced when it starts -/
 def Doomed (c : Cfg) (s : St) (t : Nat) (x : Task) : Prop :=
   x.mustCancel = true ∨ waitsCancelled s t x.pc ∨
